@@ -255,7 +255,38 @@ static void controller(ScenRt& r)
             if (th.joinable()) fail_now("joinable_after_detach", "joinable() is true after detach()");
             break;
         }
-        if (s.kind == SC_INTERRUPT)
+        // interrupt() issued by a second task while this task is (about to be) blocked inside join() on the same handle
+        // (derived from an existing draw: older replay tapes keep their meaning)
+        bool concurrent_interrupt = s.kind == SC_INTERRUPT && (s.signal_delay % 2) == 1;
+        std::atomic<int> helper_go{0};
+        // (blocking wait, not a yield loop: with a small pika.thread_queue.max_thread_count a worker that always finds a
+        // yielding task in its queue never converts staged tasks, so polling for a not yet created task can livelock)
+        pika::counting_semaphore<> helper_done{0};
+        if (concurrent_interrupt)
+        {
+            ex::execute(ex::thread_pool_scheduler{}, [&] {
+                while (!helper_go.load()) pika::this_thread::yield();
+                delay(s.ctrl_delay);
+                try
+                {
+                    BoundedCall bc("thread::interrupt() called from a second task while another task is inside join() on the same pika::thread");
+                    r.interrupt_issued.store(1);
+                    th.interrupt();
+                    r.interrupt_ok.store(1);
+                }
+                catch (pika::exception const& e)
+                {
+                    // refused (interruption disabled) or too late (the handle was already joined: null id)
+                    if (e.get_error() != pika::error::thread_not_interruptable && e.get_error() != pika::error::null_thread_id)
+                        fail_now("interrupt_error", std::string("interrupt() threw an unexpected error: ") + e.what());
+                    r.interrupt_ok.store(2);
+                }
+                signal_events();
+                helper_done.release();
+            });
+            helper_go.store(1);
+        }
+        else if (s.kind == SC_INTERRUPT)
         {
             delay(s.ctrl_delay);
             try
@@ -279,6 +310,7 @@ static void controller(ScenRt& r)
         }
         g_joins.fetch_add(1);
         th.join();
+        if (concurrent_interrupt) helper_done.acquire();
         // join returned: the body must be over (finished normally or ended by interruption) ...
         bool ended = r.body_finished.load() == 1 || r.interrupted_at.load() >= 0;
         if (!ended) fail_now("join_early", "join() returned but the thread function has neither returned nor been interrupted");
